@@ -213,16 +213,23 @@ def run(ctx):
                "nor the recomputed remaining time)")
 
     # ------------------------------------------------------- R2 set-and-wake
+    def touches_slot_word(f):
+        return any(ev["e"] == "call" and ev.get("name") in ("store", "exchange", "load", "fetch_add", "fetch_sub", "fetch_or", "fetch_and",
+                                                           "compare_exchange_weak", "compare_exchange_strong") for _, ev in f.all_events())
+
     def direct_slot_writes(fn):
-        ig = IG(fn, inline=lambda fr, ev, callee: bool(re.match(r"^babylon::Futex<", callee.record or "")))
+        # helpers of the same class that only wake (no access to the slot word) are part of the function: extracting
+        # `_futex.wake_all()` into a private member must not change the verdict
+        ig = IG(fn, inline=lambda fr, ev, callee: bool(re.match(r"^babylon::Futex<", callee.record or "")) or
+                (callee.record == fn.record and not callee.lambda_ and not touches_slot_word(callee)))
         live = ig.live_nodes()
         slot, other, fences = C01.slot_ops(ig, live)
         return ig, live, slot
     setwake, wakeonly = [], []
     for fn in sf_fns:
-        if not direct_calls(fn, WAKE_RE):
-            continue
         ig, live, slot = direct_slot_writes(fn)
+        if not list(L.call_nodes(ig, callee_re=WAKE_RE, live=live)) or not any(a.node.frame.id == 0 for a in slot):
+            continue
         if any(a.op in ("store", "rmw") for a in slot):
             setwake.append((fn, ig, live, slot))
         elif any(a.op == "load" for a in slot):
